@@ -95,17 +95,30 @@ def run(ctx):
         start_b = set(b for b, c, a, d in L.calls_to(w, ["BatchProgress::start_job"]))
         end_b = set(b for b, c, a, d in L.calls_to(w, ["BatchProgress::complete_job", "BatchProgress::fail_job"]))
         fail_b = set(b for b, c, a, d in L.calls_to(w, ["BatchProgress::fail_job"]))
+        # every path sends exactly one result; start_job and complete_job|fail_job are balanced on every path (a job
+        # cancelled before it starts takes neither), at most one each, and the operation runs only after start_job
+        op_blocks = set(o[0] for o in ops)
         for what, blocks in (("send", send_b), ("start_job", start_b), ("complete_job|fail_job", end_b)):
             rng = L.path_count_range(w, lambda b, bl=blocks: b in bl)
             key = "%s:%s-per-path" % (wname, what)
             if g.loops():
                 ctx.undecided_site("R1", key, "wrapper contains a loop", w.where())
-            elif rng != (1, 1):
-                ctx.violation("R1", key, "calls of %s on the paths through the %s job wrapper range over %s; every path must make "
-                              "exactly one (a path with none loses the job's result, a path with two reports it twice)" % (what, kind, rng),
+                continue
+            if what == "send":
+                good = rng == (1, 1)
+                want = "every path must make exactly one (a path with none loses the job's result, a path with two reports it twice)"
+            else:
+                bal = L.path_count_range(w, lambda b: (1 if b in start_b else 0) - (1 if b in end_b else 0))
+                after_start = all(any(g.dominates(sb, ob) for sb in start_b) for ob in op_blocks) if what == "start_job" else \
+                    all(CF.must_pass(w, [rb for rb in g.return_blocks()], list(end_b), start=ob) is None for ob in op_blocks)
+                good = rng is not None and rng[1] <= 1 and rng[0] >= 0 and bal == (0, 0) and after_start and (rng[1] == 1 or not op_blocks)
+                want = "every path must pair at most one start_job with exactly one complete_job|fail_job, and the operation must run " \
+                       "between them (balance start-end over paths: %s)" % (bal,)
+            if not good:
+                ctx.violation("R1", key, "calls of %s on the paths through the %s job wrapper range over %s; %s" % (what, kind, rng, want),
                               w.where(), {"range": rng})
             else:
-                ctx.ok("R1", key, "exactly one on every path", w.where())
+                ctx.ok("R1", key, "exactly one on every path" if what == "send" else "balanced, at most one, around the operation", w.where())
         if not ctx.floor("R2", "operation call in %s" % wname, len(ops), 1):
             continue
         # R2 containment
